@@ -195,6 +195,10 @@ class Probe(SourceProxy):
             self._root.__exit__(exc_type, exc, tb)
             return
 
+        if self not in global_probes:
+            # Already deactivated (e.g. deactivate() in the with block)
+            return
+
         # A subscriber may raise an error upon completion (e.g. min() when
         # there were no elements): complete the others and deactivate the
         # probe regardless, then propagate the error.
